@@ -599,8 +599,9 @@ class BlockUploadStream(io.RawIOBase):
         request[1] = self._ackseq
         request[2] = self.blksize
         self.sdo_client.send_request(request)
-        if self._ackseq == self.blksize:
-            self._ackseq = 0
+        # The server starts the next block with sequence number 1, also when
+        # only a part of this block was acknowledged
+        self._ackseq = 0
 
     def _end_upload(self):
         response = self.sdo_client.read_response()
